@@ -1,4 +1,4 @@
-import TF.Proofs.NttDft
+import TF.Proofs.NttInverse
 import TF.Model.Ntt
 import Mathlib.Tactic.Ring
 import Mathlib.Tactic.Linarith
@@ -245,7 +245,7 @@ theorem toFn_eq_of_getElem? (a b : Array R) (i j : Nat) (h : a[i]? = b[j]?) : to
   simp [toFn, Array.getD_eq_getD_getElem?, h]
 
 /-- `ntt_unchecked` with the operations of a commutative ring computes the DFT -/
-theorem nttUnchecked_eq_dft (L : Nat) (ω : R) (hω : ω^(2^(L-1)) = -1) (x : Array R) (hx : x.size = 2^L) :
+theorem nttUnchecked_eq_dft (L : Nat) (ω : R) (hω : 0 < L → ω^(2^(L-1)) = -1) (x : Array R) (hx : x.size = 2^L) :
     ∃ y, nttUnchecked (ringOps R inv inv0) x ω L = some y ∧ y.size = 2^L ∧
       ∀ i, i < 2^L → toFn y i = dft (2^L) ω (toFn x) i := by
   obtain ⟨b, hb, hbs, hbi⟩ := swapLoop_spec L x (2^L) 0 x hx hx (by omega) (by intro i _; simp)
@@ -258,6 +258,163 @@ theorem nttUnchecked_eq_dft (L : Nat) (ω : R) (hω : ω^(2^(L-1)) = -1) (x : Ar
     have := hst.2 i hi
     simp only [pow_zero, Nat.zero_add] at this
     rw [this]
-    exact ntt_eq_dft L ω hω (toFn x) i hi
+    exact ntt_eq_dft' L ω hω (toFn x) i hi
+
+/-! ### the public functions `ntt`, `intt` and their round trips -/
+
+omit inv inv0 in
+theorem isPow2_two_pow (L : Nat) : TF.isPow2 (2^L) = true := by
+  have h : 2^L &&& (2^L - 1) = 0 := by
+    rw [Nat.and_two_pow_sub_one_eq_mod]; simp
+  have hne : 2^L ≠ 0 := by positivity
+  simp [TF.isPow2, h, hne]
+
+omit [CommRing R] in
+theorem ntt_unfold {σ α : Type} (ops : Ops σ α) (root : Nat → Option σ) (x : Array α) (L : Nat) (hL : L ≤ 31)
+    (hx : x.size = 2^L) (ω : σ) (hr : root (2^L) = some ω) : ntt ops root x = nttUnchecked ops x ω L := by
+  have hlt : ¬ 2^32 ≤ x.size := by
+    rw [hx]; have := Nat.pow_le_pow_right (by norm_num : 0 < 2) hL; omega
+  have hne : 2^L ≠ 0 := by positivity
+  unfold ntt
+  rw [if_neg hlt]
+  simp only [hx, isPow2_two_pow, Nat.log2_two_pow, hr]
+  simp [hne]
+
+omit [CommRing R] in
+theorem intt_unfold {σ α : Type} (ops : Ops σ α) (root : Nat → Option σ) (x : Array α) (L : Nat) (hL : L ≤ 31)
+    (hx : x.size = 2^L) (ω ωi : σ) (hr : root (2^L) = some ω) (hi : ops.sinv ω = some ωi) :
+    intt ops root x = (nttUnchecked ops x ωi L).map
+      (fun y => y.map (ops.scale (ops.sinv0 (ops.sofNat (2^L))))) := by
+  have hlt : ¬ 2^32 ≤ x.size := by
+    rw [hx]; have := Nat.pow_le_pow_right (by norm_num : 0 < 2) hL; omega
+  have hne : 2^L ≠ 0 := by positivity
+  unfold intt
+  rw [if_neg hlt]
+  simp only [hx, isPow2_two_pow, Nat.log2_two_pow, hr, hi]
+  simp [hne]
+  cases nttUnchecked ops x ωi L <;> rfl
+
+
+theorem toFn_map_scale (c : R) (y : Array R) (i : Nat) (hi : i < y.size) :
+    toFn (y.map ((ringOps R inv inv0).scale c)) i = c * toFn y i := by
+  simp [toFn, Array.getD_eq_getD_getElem?, hi, ringOps]
+
+/-- `ntt` = DFT with the table's root -/
+theorem ntt_eq_dft_model (root : Nat → Option R) (L : Nat) (hL : L ≤ 31) (ω : R) (hr : root (2^L) = some ω)
+    (hω : 0 < L → ω^(2^(L-1)) = -1) (x : Array R) (hx : x.size = 2^L) :
+    ∃ y, ntt (ringOps R inv inv0) root x = some y ∧ y.size = 2^L ∧
+      ∀ i, i < 2^L → toFn y i = dft (2^L) ω (toFn x) i := by
+  rw [ntt_unfold _ root x L hL hx ω hr]
+  exact nttUnchecked_eq_dft inv inv0 L ω hω x hx
+
+/-- `intt` = inverse DFT scaled by `n⁻¹` -/
+theorem intt_eq_dft_model (root : Nat → Option R) (L : Nat) (hL : L ≤ 31) (ω ωi : R) (hr : root (2^L) = some ω)
+    (hi : inv ω = some ωi) (hinv : ωi * ω = 1)
+    (hω : 0 < L → ω^(2^(L-1)) = -1) (x : Array R) (hx : x.size = 2^L) :
+    ∃ y, intt (ringOps R inv inv0) root x = some y ∧ y.size = 2^L ∧
+      ∀ i, i < 2^L → toFn y i = inv0 ((2^L : ℕ) : R) * dft (2^L) ωi (toFn x) i := by
+  rw [intt_unfold _ root x L hL hx ω ωi hr hi]
+  have hωi : 0 < L → ωi^(2^(L-1)) = -1 := fun h => inv_pow_half L ω ωi (hω h) hinv
+  obtain ⟨y, hy, hys, hyi⟩ := nttUnchecked_eq_dft inv inv0 L ωi hωi x hx
+  refine ⟨_, by rw [hy]; rfl, by simp [hys], ?_⟩
+  intro i hi'
+  rw [toFn_map_scale inv inv0 _ y i (by omega), hyi i hi']
+  rfl
+
+theorem array_ext_toFn (a b : Array R) (n : Nat) (ha : a.size = n) (hb : b.size = n)
+    (h : ∀ i, i < n → toFn a i = toFn b i) : a = b := by
+  apply Array.ext (by omega)
+  intro i h1 h2
+  have := h i (by omega)
+  simpa [toFn, Array.getD_eq_getD_getElem?, h1, h2] using this
+
+theorem dft_congr (n : Nat) (z : R) (f g : Nat → R) (h : ∀ i, i < n → f i = g i) (j : Nat) : dft n z f j = dft n z g j := by
+  unfold dft
+  apply Finset.sum_congr rfl
+  intro i hi; rw [h i (Finset.mem_range.1 hi)]
+
+/-- `intt (ntt x) = x` -/
+theorem intt_ntt_model (root : Nat → Option R) (L : Nat) (hL : L ≤ 31) (ω ωi : R) (hr : root (2^L) = some ω)
+    (hi : inv ω = some ωi) (hinv : ωi * ω = 1) (hn : inv0 ((2^L : ℕ) : R) * ((2^L : ℕ) : R) = 1)
+    (hω : 0 < L → ω^(2^(L-1)) = -1) (x : Array R) (hx : x.size = 2^L) :
+    ∃ y, ntt (ringOps R inv inv0) root x = some y ∧ intt (ringOps R inv inv0) root y = some x := by
+  obtain ⟨y, hy, hys, hyi⟩ := ntt_eq_dft_model inv inv0 root L hL ω hr hω x hx
+  obtain ⟨z, hz, hzs, hzi⟩ := intt_eq_dft_model inv inv0 root L hL ω ωi hr hi hinv hω y hys
+  refine ⟨y, hy, ?_⟩
+  rw [hz]; congr 1
+  apply array_ext_toFn z x (2^L) hzs hx
+  intro i hi'
+  rw [hzi i hi', dft_congr (2^L) ωi (toFn y) _ hyi, dft_inv L ω ωi hω hinv (toFn x) i hi', ← mul_assoc, hn, one_mul]
+
+/-- `ntt (intt x) = x` -/
+theorem ntt_intt_model (root : Nat → Option R) (L : Nat) (hL : L ≤ 31) (ω ωi : R) (hr : root (2^L) = some ω)
+    (hi : inv ω = some ωi) (hinv : ωi * ω = 1) (hn : inv0 ((2^L : ℕ) : R) * ((2^L : ℕ) : R) = 1)
+    (hω : 0 < L → ω^(2^(L-1)) = -1) (x : Array R) (hx : x.size = 2^L) :
+    ∃ y, intt (ringOps R inv inv0) root x = some y ∧ ntt (ringOps R inv inv0) root y = some x := by
+  obtain ⟨y, hy, hys, hyi⟩ := intt_eq_dft_model inv inv0 root L hL ω ωi hr hi hinv hω x hx
+  obtain ⟨z, hz, hzs, hzi⟩ := ntt_eq_dft_model inv inv0 root L hL ω hr hω y hys
+  refine ⟨y, hy, ?_⟩
+  rw [hz]; congr 1
+  apply array_ext_toFn z x (2^L) hzs hx
+  intro i hi'
+  have hωi : 0 < L → ωi^(2^(L-1)) = -1 := fun h => inv_pow_half L ω ωi (hω h) hinv
+  have hinv' : ω * ωi = 1 := by rw [mul_comm]; exact hinv
+  have hsc : ∀ j, dft (2^L) ω (fun k => inv0 ((2^L : ℕ) : R) * dft (2^L) ωi (toFn x) k) j
+      = inv0 ((2^L : ℕ) : R) * dft (2^L) ω (dft (2^L) ωi (toFn x)) j := by
+    intro j; unfold dft; rw [Finset.mul_sum]; apply Finset.sum_congr rfl; intro k _; ring
+  rw [hzi i hi', dft_congr (2^L) ω (toFn y) _ hyi, hsc, dft_inv L ωi ω hωi hinv' (toFn x) i hi', ← mul_assoc, hn, one_mul]
+
+
+/-! ### rejected lengths -/
+
+theorem pow2_of_and_pred (n : Nat) (hn : n ≠ 0) (h : n &&& (n - 1) = 0) : ∃ k, n = 2^k := by
+  induction n using Nat.strong_induction_on with
+  | _ n ih =>
+    have hdiv : n / 2 &&& (n - 1) / 2 = 0 := by
+      have := congrArg (· / 2) h
+      simpa [Nat.and_div_two] using this
+    rcases Nat.even_or_odd n with ⟨m, hm⟩ | ⟨m, hm⟩
+    · have hm0 : m ≠ 0 := by omega
+      have h1 : n / 2 = m := by omega
+      have h2 : (n - 1) / 2 = m - 1 := by omega
+      rw [h1, h2] at hdiv
+      obtain ⟨k, hk⟩ := ih m (by omega) hm0 hdiv
+      exact ⟨k+1, by rw [pow_succ]; omega⟩
+    · have h1 : n / 2 = m := by omega
+      have h2 : (n - 1) / 2 = m := by omega
+      rw [h1, h2, Nat.and_self] at hdiv
+      exact ⟨0, by omega⟩
+
+theorem isPow2_iff (n : Nat) : TF.isPow2 n = true ↔ ∃ k, n = 2^k := by
+  constructor
+  · intro h
+    simp only [TF.isPow2, Bool.and_eq_true, bne_iff_ne, ne_eq, beq_iff_eq] at h
+    exact pow2_of_and_pred n h.1 h.2
+  · rintro ⟨k, rfl⟩; exact isPow2_two_pow k
+
+/-- `ntt`/`intt` panic on every length that is not 0 or a power of two below `2^32` -/
+theorem ntt_rejects {σ α : Type} (ops : Ops σ α) (root : Nat → Option σ) (x : Array α)
+    (h : ¬ (x.size = 0 ∨ ∃ k, k ≤ 31 ∧ x.size = 2^k)) : ntt ops root x = none ∧ intt ops root x = none := by
+  have key : 2^32 ≤ x.size ∨ (x.size == 0 || TF.isPow2 x.size) = false := by
+    by_cases hbig : 2^32 ≤ x.size
+    · exact Or.inl hbig
+    · right
+      rw [Bool.or_eq_false_iff]
+      constructor
+      · simp only [beq_eq_false_iff_ne]; intro h0; exact h (Or.inl h0)
+      · rw [Bool.eq_false_iff]; intro hp
+        obtain ⟨k, hk⟩ := (isPow2_iff _).1 hp
+        apply h; right
+        refine ⟨k, ?_, hk⟩
+        by_contra hk31
+        have : 2^32 ≤ 2^k := Nat.pow_le_pow_right (by norm_num) (by omega)
+        omega
+  unfold ntt intt
+  rcases key with hbig | hnp
+  · constructor <;> rw [if_pos hbig]
+  · by_cases hbig : 2^32 ≤ x.size
+    · constructor <;> rw [if_pos hbig]
+    · constructor <;> rw [if_neg hbig] <;> simp only [hnp, Bool.not_false, if_true]
+
 
 end TF.NttProofs
